@@ -40,6 +40,10 @@ ASSUMPTIONS = [
     "keys '' (read_signal treats it as no key), 'file' and 'allow_pickle' (captured by np.savez's own parameters) are outside the "
     "reload theorem / generator; a key-less load reads arr_0, so after a second default save (stored at arr_1) the new statistics "
     "must be loaded with key='arr_1' - documented behaviour, asserted as such",
+    "direction of the overwrite flag is the code's: overwrite=True merges with the existing archive (replacing only the chosen "
+    "key), overwrite=False replaces the file by a one-entry archive; the docstring words it the other way round",
+    "an EMPTY raw file makes Standardize(rfilename) raise IndexError (reshape gives (2,0)); the docstring promises local "
+    "standardisation for an empty file - modelled as it is, outside this property",
     "the path holds a file of its own kind (written by save or a well-formed archive / any byte string for raw)",
     "statistics loaded from a file and then extended by accumulate are covered by correspondence only (valid needs closeRound(c+n))",
     "the float32 re-interpretation heuristic can mis-read foreign float32 statistics files with an even number of columns "
